@@ -90,7 +90,9 @@ pub fn maybe_round_to_effective_cent(d: Decimal) -> Decimal {
 pub fn c_maybe_round_to_effective_cent<T: DecConstraint>(
     d: ConstrainedDecimal<T>,
 ) -> ConstrainedDecimal<T> {
-    ConstrainedDecimal::<T>::try_from(maybe_round_to_effective_cent(*d)).unwrap()
+    // Rounding may move a tiny value onto zero, which the Pos/Neg constraints
+    // reject. Keep the unrounded value in that case rather than panicking.
+    ConstrainedDecimal::<T>::try_from(maybe_round_to_effective_cent(*d)).unwrap_or(d)
 }
 
 // MARK: tests
